@@ -279,16 +279,16 @@ PROPS = {
         "assumptions": ["every gate's namespace expression evaluates to the request's namespace parameter (true for the generated requests)"],
     },
     "C02": {
-        "prop_files": ["Katib/Props/C02.lean"],
+        "prop_files": ["Katib/Props/C02.lean", "Katib/Props/C02Guards.lean"],
         "n": {"quick": 4000, "thorough": 200000},
         "rule": "template trees (depth <= 4, placeholders repeated and nested in maps/arrays, literals with $, ${, }, <&>, non-ASCII, backslashes, partial placeholder syntax) x 1-4 declared "
                 "trial parameters (free-form names: letters, '-', '.', '/', '~', '+', non-ASCII) referencing assignments or trial metadata (Name, Namespace, Kind, APIVersion, Labels[k], Annotations[k], illegal ones) x assignments (clean values; "
                 "rarely missing/extra) through the real GetRunSpecWithHyperParameters from an inline trialSpec or a ConfigMap (JSON, or YAML whose scalars are re-typed by the YAML engine: the oracle there is textual substitution then YAML parse; a YAML text that a value would break falls back to JSON); plus batches of 1-4 assignments turned into "
                 "Trials by the real getTrialInstance on one Experiment object (labels, owner, rules); distinct = distinct op line; the Experiment carries typed spec.parameters for the referenced names (int / double / categorical / discrete) and values also come in float notation (100.0, 0.0, 1e2, +5, 007)",
-        "trusted": ["JSON/YAML (de)serialisation (ConvertUnstructuredToString / ConvertStringToUnstructured) and the reference regexps are oracles",
+        "trusted": ["the go/ast path-condition translator (kvh extract guards / pred / skip; what it is trusted for: DESIGN.md section 2)", "JSON/YAML (de)serialisation (ConvertUnstructuredToString / ConvertStringToUnstructured) and the reference regexps are oracles",
                     "the harness's independent tree substitution (tree=) is the oracle for ConfigMap/YAML templates"],
         "modelled": ["DefaultGenerator.applyParameters (placeholder map, count check, strings.Replace loop) as Katib.Tpl.placeholders/applyAll/replaceAll; getTrialInstance as Katib.Tpl.trialInstance"],
-        "level_text": "Lean theorems on strings: C02_replace_one, C02_apply_all (every occurrence of every declared placeholder replaced, nothing else changes), C02_any_order (map iteration "
+        "level_text": "C02_iteration_is_source: one iteration of the model of applyParameters consumes an assignment, takes the name / namespace / kind / apiVersion / annotation / label and returns each error under exactly the path conditions regenerated from the loop body (expression switch included) on this run (13 sites); Lean theorems on strings: C02_replace_one, C02_apply_all (every occurrence of every declared placeholder replaced, nothing else changes), C02_any_order (map iteration "
                       "order irrelevant), C02_no_placeholder_left; placeholder-map errors (C02_missing_assignment_error, C02_count_check, C02_meta_values); record level C02_trial_fields; "
                       "differential run of the real generator (inline: exact text; ConfigMap: tree oracle) and of getTrialInstance batches",
         "level_note": "trusted: Lean kernel; harness/check; JSON/YAML engines; hypotheses of the string theorems = the property's quantifier (names without $ and }, values and literals without $)",
